@@ -181,6 +181,22 @@ func runLayout(c *hx.Ctx, k kase, d ldoc, lc layCfg, tie bool) {
 		}
 		c.Op(fmt.Sprintf("c12.lchunk %d %d %d %d %s %s %s", lc.CC.MaxChunkSize, lc.CC.MinChunkSize, lc.CC.MinHeadingLevel, keep,
 			hx.HexS(lc.CC.IDPrefix), hx.HexS(d.Title), layoutWire(d, lc.CC.MaxChunkSize)), dumpChunks(vs))
+		// the same with splitIntoSentences computed by the model (sent.go)
+		if over := overMax(d, lc.CC.MaxChunkSize); over || k.Index%4 == 0 {
+			c.Op(fmt.Sprintf("c12.lchunks %d %d %d %d %s %s %s %s", lc.CC.MaxChunkSize, lc.CC.MinChunkSize, lc.CC.MinHeadingLevel, keep,
+				hx.HexS(lc.CC.IDPrefix), hx.HexS(d.Title), lowTable(docTexts(d)), layoutWireS(d)), dumpChunks(vs))
+			if lc.CC.PreserveListCoherence && k.Index%2 == 0 {
+				// … and with FindAtomicBlocks / GetAtomicBlockAt as the code has them (Model/ChunkAtomic.lean)
+				c.Op(fmt.Sprintf("c12.lchunka %d %d %d %d %s %s %s %s", lc.CC.MaxChunkSize, lc.CC.MinChunkSize, lc.CC.MinHeadingLevel, keep,
+					hx.HexS(lc.CC.IDPrefix), hx.HexS(d.Title), lowTable(docTexts(d)), layoutWireS(d)), dumpChunks(vs))
+				c.Count("layout/atomic-blocks-by-index")
+			}
+			if over {
+				c.Count("layout/sentences-by-model/some-text-above-max")
+			} else {
+				c.Count("layout/sentences-by-model/all-texts-fit")
+			}
+		}
 	}
 	cd := canonical(d)
 	atoms := atomsOf(cd, func(lv int) bool { return lv <= lc.CC.MinHeadingLevel })
@@ -342,10 +358,64 @@ func runEndToEnd(c *hx.Ctx) {
 		what := func() string { return "tabula.Open(html).Chunks(); " + describe(d) }
 		checkChunks(c, coverOpts{prefix: "C12/", kinds: allKinds, crossKind: true, exactPage: true, inPath: allKinds, pages: pagesOf(d)},
 			atomsOf(d, func(int) bool { return true }), vs, k, what)
+		// the public entry point against the model: Chunks() = ChunkDocument(Document())
+		if n := textBytes(d); n <= 30000 {
+			c.Op("c12.chunkc preset=default "+modelWire(doc), dumpChunks(vs))
+			c.Count("e2e/tied-to-model")
+		}
 		c.Count("e2e/html")
 		if i >= n {
 			countRepeats(c, "e2e-repeat", d)
 		}
 		c.Case("e2e"+docWire(d), len(vs) > 0)
 	}
+}
+
+// modelWire renders a model.Document as the chunker reads it (docWire's grammar):
+// page numbers, Layout.Headings as they are, the elements of the five kinds in order.
+func modelWire(doc *model.Document) string {
+	var pages []string
+	for _, pg := range doc.Pages {
+		lay := "~"
+		if pg.Layout != nil {
+			var hs []string
+			for _, h := range pg.Layout.Headings {
+				hs = append(hs, levelHex(h.Level, h.Text))
+			}
+			lay = strings.Join(hs, ",")
+		}
+		var es []string
+		for _, el := range pg.Elements {
+			switch e := el.(type) {
+			case *model.Heading:
+				es = append(es, fmt.Sprintf("h.%d.%s", e.Level, hx.HexS(e.Text)))
+			case *model.Paragraph:
+				es = append(es, "p."+hx.HexS(e.Text))
+			case *model.List:
+				var its []string
+				for _, it := range e.Items {
+					its = append(its, levelHex(it.Level, it.Text))
+				}
+				o := "u"
+				if e.Ordered {
+					o = "o"
+				}
+				es = append(es, "l."+o+"."+strings.Join(its, ","))
+			case *model.Table:
+				var rows []string
+				for _, row := range e.Rows {
+					cells := make([]string, len(row))
+					for j, cl := range row {
+						cells[j] = cl.Text
+					}
+					rows = append(rows, "r"+hx.HexList(cells))
+				}
+				es = append(es, "t."+strings.Join(rows, ";"))
+			case *model.Image:
+				es = append(es, "i."+hx.HexS(e.AltText))
+			}
+		}
+		pages = append(pages, fmt.Sprintf("%d:%s:%s", pg.Number, lay, strings.Join(es, "|")))
+	}
+	return "d=" + strings.Join(pages, "/")
 }
